@@ -18,9 +18,15 @@ import (
 // the Kelvin sign U+212A (lower case 2 bytes shorter), U+0250 (upper case is 1 byte longer).
 var caseRunes = []string{"\xff", "\u023a", "\u212a", "\u0250"}
 
+// uniSpaces are white space for unicode.IsSpace / strings.TrimSpace but not for ASCII-only trimmers
+// (textproto, bytes.TrimLeft(" \t")): NBSP, EM SPACE, IDEOGRAPHIC SPACE, NEL, LINE SEPARATOR.
+var uniSpaces = []string{"\u00a0", "\u2003", "\u3000", "\u0085", "\u2028"}
+
 // longLineLengths: around the 4 KiB buffers of bufio.Reader / textproto and the 64 KiB token limit of
 // bufio.Scanner, plus 1 MiB.
 var longLineLengths = []int{4095, 4096, 4097, 65535, 65536, 65537, 1 << 20}
+
+var emptyForms = []string{`""`, `" "`, `"x"`, `{}`, `[]`, `0`, `-1`}
 
 var sigma = []byte{'{', '}', '[', ']', '"', ':', ',', '\n', ' ', '0', '-', '<', '=', '@', 0x00, 0xff}
 
@@ -55,6 +61,8 @@ type bounds struct {
 	nullify   int // text seeds up to this size: replace each value token / bracket group by null
 	caseIns   int // text seeds up to this size: insert each case rune at file start, line starts, around ':' '=' and at word boundaries
 	caseLine  int // text seeds up to this size: line i := case rune + first k bytes of line i, every k (lines <= 200 B)
+	emptify   int // text seeds up to this size: each string value := "" / " " / "x", each {...} := {}, [...] := [], each number := 0 / -1
+	uniSpace  int // text seeds up to this size: Unicode spaces at value starts/ends, before '(' and instead of blank runs (<= 256 places)
 	longLine  int // text seeds up to this size: grow the last token of a line to 4095 ... 1 MiB bytes (first 4 and last 2 lines)
 	lineCut   int // text seeds up to this size: truncate line i at every column / drop its first k bytes (lines <= 200 B)
 	binFF     bool
@@ -62,9 +70,9 @@ type bounds struct {
 
 func boundsFor(tier string) bounds {
 	if tier == "thorough" {
-		return bounds{truncAll: 64 << 10, lineOps: 64 << 10, sigmaAll: 32 << 10, sigmaLine: 64 << 10, byteOps: 16 << 10, nullify: 64 << 10, lineCut: 32 << 10, caseIns: 32 << 10, caseLine: 8 << 10, longLine: 16 << 10, binFF: true}
+		return bounds{truncAll: 64 << 10, lineOps: 64 << 10, sigmaAll: 32 << 10, sigmaLine: 64 << 10, byteOps: 16 << 10, nullify: 64 << 10, lineCut: 32 << 10, caseIns: 32 << 10, caseLine: 8 << 10, longLine: 16 << 10, emptify: 64 << 10, uniSpace: 32 << 10, binFF: true}
 	}
-	return bounds{truncAll: 2 << 10, lineOps: 64 << 10, sigmaAll: 256, sigmaLine: 2 << 10, byteOps: 256, nullify: 2 << 10, lineCut: 8 << 10, caseIns: 2 << 10, caseLine: 2 << 10, longLine: 2 << 10, binFF: false}
+	return bounds{truncAll: 2 << 10, lineOps: 64 << 10, sigmaAll: 256, sigmaLine: 2 << 10, byteOps: 256, nullify: 2 << 10, lineCut: 8 << 10, caseIns: 2 << 10, caseLine: 2 << 10, longLine: 2 << 10, emptify: 2 << 10, uniSpace: 2 << 10, binFF: false}
 }
 
 func isBinary(seed []byte) bool {
@@ -123,6 +131,12 @@ func (d mutDesc) String() string {
 		return fmt.Sprintf("insert %+q at offset %d", caseRunes[d.B], d.A)
 	case "case-line":
 		return fmt.Sprintf("line %d := %+q + its first %d bytes", d.A, caseRunes[d.C], d.B)
+	case "emptify":
+		return fmt.Sprintf("value [%d:%d] := %s", d.A, d.B, emptyForms[d.C])
+	case "unispace-insert":
+		return fmt.Sprintf("insert %+q at offset %d", uniSpaces[d.B], d.A)
+	case "unispace-replace":
+		return fmt.Sprintf("blank run [%d:%d] := %+q", d.A, d.B, uniSpaces[d.C])
 	case "long-line":
 		v := "rest of the file kept"
 		if d.C == 1 {
@@ -360,6 +374,60 @@ func enumerate(seed []byte, tier string, from int, anchors func() []string, fn f
 			}
 		}
 	}
+	// structure-aware (quoted-string level, so JSONC/YAML/TOML work too): every string value := "" / " " / "x"
+	// (keeping its quote character), every {...} := {}, every [...] := [], every bare number := 0 / -1
+	if n > 0 && n <= b.emptify && !isBinary(seed) {
+		for _, sp := range valueSpans(seed) {
+			var forms []int
+			switch c := seed[sp[0]]; {
+			case c == '"' || c == '\'':
+				forms = []int{0, 1, 2}
+			case c == '{':
+				forms = []int{3}
+			case c == '[':
+				forms = []int{4}
+			case c >= '0' && c <= '9' || c == '-' || c == '+':
+				forms = []int{5, 6}
+			}
+			for _, fi := range forms {
+				if !emit(mutDesc{Op: "emptify", A: sp[0], B: sp[1], C: fi}, func() []byte {
+					rep := []byte(emptyForms[fi])
+					if fi <= 2 && seed[sp[0]] == '\'' {
+						rep = bytes.ReplaceAll(rep, []byte{'"'}, []byte{'\''})
+					}
+					buf = append(append(append(buf[:0], seed[:sp[0]]...), rep...), seed[sp[1]:]...)
+					return buf
+				}) {
+					return seq
+				}
+			}
+		}
+	}
+	// Unicode spaces: at the start and end of each field value (after ':' / '=' + blanks, at end of line),
+	// before each '(' and instead of each ASCII blank run
+	if n > 0 && n <= b.uniSpace && !isBinary(seed) {
+		ins, runs := uniSpacePlaces(seed)
+		for _, k := range ins {
+			for ri, r := range uniSpaces {
+				if !emit(mutDesc{Op: "unispace-insert", A: k, B: ri}, func() []byte {
+					buf = append(append(append(buf[:0], seed[:k]...), r...), seed[k:]...)
+					return buf
+				}) {
+					return seq
+				}
+			}
+		}
+		for _, sp := range runs {
+			for ri, r := range uniSpaces {
+				if !emit(mutDesc{Op: "unispace-replace", A: sp[0], B: sp[1], C: ri}, func() []byte {
+					buf = append(append(append(buf[:0], seed[:sp[0]]...), r...), seed[sp[1]:]...)
+					return buf
+				}) {
+					return seq
+				}
+			}
+		}
+	}
 	// long line / long token: the last token of line i (what precedes its trailing quote/bracket/comma) is
 	// padded with 'A' until the line has the target length; the key prefix stays, so the parser still reaches it
 	if n > 0 && n <= b.longLine && !isBinary(seed) {
@@ -497,6 +565,49 @@ func guidedSpans(seed []byte, anchors []string) []guidedSpan {
 		}
 	}
 	return out
+}
+
+// uniSpacePlaces: insertion offsets (value starts after ':'/'=' and blanks, line ends, before '(') and the
+// ASCII blank runs inside lines; at most 256 of each.
+func uniSpacePlaces(seed []byte) (ins []int, runs [][2]int) {
+	n := len(seed)
+	mark := map[int]bool{}
+	add := func(p int) {
+		if !mark[p] && len(ins) < 256 {
+			mark[p] = true
+			ins = append(ins, p)
+		}
+	}
+	for i := 0; i < n; i++ {
+		switch c := seed[i]; {
+		case c == ':' || c == '=':
+			j := i + 1
+			for j < n && (seed[j] == ' ' || seed[j] == '\t') {
+				j++
+			}
+			add(i + 1)
+			add(j)
+		case c == '\n':
+			k := i
+			if k > 0 && seed[k-1] == '\r' {
+				k--
+			}
+			add(k)
+		case c == '(':
+			add(i)
+		case c == ' ' || c == '\t':
+			j := i
+			for j < n && (seed[j] == ' ' || seed[j] == '\t') {
+				j++
+			}
+			if i > 0 && seed[i-1] != '\n' && len(runs) < 256 { // not the indentation
+				runs = append(runs, [2]int{i, j})
+			}
+			i = j - 1
+		}
+	}
+	add(n)
+	return ins, runs
 }
 
 // insertPositions: offset 0, every line start, before and after every ':' and '=', and every boundary
